@@ -8,7 +8,9 @@ PROP = {
             "time) x receiver in U x argument tuples in U^arity plus one over-arity call, every comparison/boolean "
             "operator x U x U, 31 access/loop/tag forms x U (x U), U = 22 (quick) / 57 (thorough) boundary values (typed zeros "
             "int64(0), uint(0) and an array holding a nil and a non-nil pointer included); a "
-            "family of pure templates over ranges with extreme endpoints and lengths around the array-conversion bound; "
+            "family of pure templates over ranges with extreme endpoints and lengths around the array-conversion bound; 299 whole templates "
+            "about times ({{ t }}, t | date with and without a format, date on date strings of every modelled layout and on strings no layout "
+            "accepts, times inside arrays, maps and behind pointers, date results fed to other filters) on 12 instants from the year -32873 to 36812; "
             "(2) every sequence of <= 3 items of a fixed 24-item alphabet of expression tokens (not every token the lexer knows) "
             "in 6 expression contexts; thorough adds every sequence of exactly 4 items in the first 3 contexts (output, if, assign); "
             "(3) grammar-generated templates x generated environments (all tags, filters, operators; measured "
@@ -38,7 +40,9 @@ TEXT = {
               'renderer calls (PrimsNoPanic stdPrims stdOut: ==, <, contains, values.Equal, writeObject, and ApplyFilter + '
               'values.Call with all modelled numeric/string/array filter bodies and the '
               'value filters json, inspect, type, i.e. the model of json.Marshal and of %T: StdNoPanic, ArrNoPanic, '
-              'json_inspect_type_noPanic; 47 of the 48 registered filters, all but date; a body has to be panic-free only on '
+              'json_inspect_type_noPanic, and the date filter, i.e. the model of tuesday.Strftime, of the calendar and of ParseDate: '
+              'dateImpls_noPanic, date_noPanic, time_values_noPanic; all 48 registered filters have a modelled body: '
+              'every_registered_filter_modelled; a body has to be panic-free only on '
               'arguments typed as its registered signature says, which is what values.Call hands it). The Res.panic sites of the '
               'model, all of them shown unreachable: the reflect accessors on a value of the wrong kind (Bool, Int, Uint, Len, map '
               'Key, Convert to float64), Go == on uncomparable types, the string assertion of stringValue.Contains (Compare.lean), '
@@ -52,7 +56,8 @@ TEXT = {
               'within the time budget.'),
     "design_ref": 'DESIGN.md 6 C01',
     "note": NOTE + ('Parts of the code answered `unmodelled` (counted in evidence) are covered by the oracle on the real code only: '
-              'the date filter and time formatting; an include nested deeper than the fuel (the driver runs with fuel 8, so a '
+              'date on a string receiver that is not one of the five all-digit layouts (nor rejected by every layout at its first field), '
+              'strftime widths above 1024, instants beyond +-2^62 s, fmt of a time below an unexported struct field; an include nested deeper than the fuel (the driver runs with fuel 8, so a '
               'cyclic include is outside the theorem; in Go it recurses without bound); a loop over a range of more than 100000 '
               'items and the array conversion of a range of more than 10^6 items; sort of more than 12 elements when the order '
               'is not a strict weak order or when tied elements are distinguishable (unstable sort); a custom block; pointer '
